@@ -183,11 +183,16 @@ class ClockHarness(Harness):
                  "CPython decimal rendering of ints (hole tokens)")
   outside = ("float arguments of ClockTime.from_seconds: round(float, 3) is CPython's correctly rounded decimal "
              "conversion (dtoa), which is outside what QF_FP can state; times of 100 h and more")
-  required_witnesses = ("round-up", "round-down", "tie")
-  bounds = {"quick": "every rational x in [0, 100 h), every rational pair x <= y", "thorough": "same"}
+  required_witnesses = ("round-up", "round-down", "tie", "grid-denominator")
+  bounds = {"quick": "every rational x in [0, 100 h), every rational pair x <= y; additionally x = k/d for d in {3,7,15,30,1000,1001} "
+                     "and every integer k with x < 100 h", "thorough": "same"}
+
+  GRID = (3, 7, 15, 30, 1000, 1001)
 
   def partitions(self, tier):
-    return [{"group": g} for g in ("value", "monotone", "print")]
+    # "value" also on the grids k/d (k a symbolic integer): lowest-terms numerator/denominator of such a value can be
+    # taken by the code under test (gcd case split), which an arbitrary symbolic rational does not allow
+    return [{"group": g} for g in ("value", "monotone", "print")] + [{"group": "value", "den": d} for d in self.GRID]
 
   def patches(self, params):
     p = numeric_shadows(tc)
@@ -209,8 +214,14 @@ class ClockHarness(Harness):
     return z3.If(fr < h, fl, z3.If(fr > h, fl + 1, z3.If(fl % 2 == 0, fl, fl + 1)))
 
   def body(self, ex, params):
-    x = ex.real("x", 0, 360000)
-    ex.assume(zreal(x) < 360000)
+    if params.get("den"):
+      d = params["den"]
+      k = ex.integer("k", 0, 360000 * d - 1)
+      x = symrun.SymGridRational(k, d) if ex.symbolic else Fraction(k, d)
+      ex.witness("grid-denominator")
+    else:
+      x = ex.real("x", 0, 360000)
+      ex.assume(zreal(x) < 360000)
     c, exc = call(ex, tc.ClockTime.from_seconds, x)
     if exc:
       ex.fail("C12:no-exception", {"site": exc[1], "exc": type(exc[0]).__name__})
